@@ -309,4 +309,28 @@ def convertToUnitsElemO {K : Type} [Mul K] [Sub K] [BEq K] [OfNat K 0] (N : Nump
     | _, .error e, _ => .error e
     | _, _, .error e => .error e
 
+/-! ### which base value a `Unit` object carries -/
+
+/-- A `Unit` object as the conversion code sees its base value: a bare symbol of the unit table
+    (`_get_unit_data_from_expr`, Symbol branch: the table entry is handed on as it is), or anything
+    else — a parsed compound expression (Number / Pow / Mul branches: `float(...)`) or a unit built
+    by arithmetic (`__mul__`, `__truediv__`, `__pow__` hand `Unit.__new__` a base value, which it
+    passes through `float(...)`).  `Unit.copy()` of a bare symbol is again a bare symbol (it keeps the
+    table entry — observed, the correspondence covers it). -/
+inductive UnitShape
+  | symbol (s : String)
+  | other
+deriving DecidableEq, Repr
+
+/-- `type(unit.base_value)` -/
+def shapeBaseKind (t : List (String × BaseKind)) : UnitShape → Option BaseKind
+  | .symbol s => t.lookup s
+  | .other => some .pyfloat
+
+/-- `type(old.get_conversion_factor(new)[0])` for two units -/
+def shapeFactorKind (t : List (String × BaseKind)) (a b : UnitShape) : Option FactorKind :=
+  match shapeBaseKind t a, shapeBaseKind t b with
+  | some x, some y => some (ratioKind x y)
+  | _, _ => none
+
 end Unyt
